@@ -32,6 +32,12 @@ Clause(e) ==
          IF Failed(e) THEN "roundtrip-failed"
          ELSE IF ~TabEq(Tab(e.out), FromCoords(t, e.names)) THEN "from-coordinates"
          ELSE IF \E i \in DOMAIN e.names : e.back[e.names[i]] # Get(t, <<>>, [k |-> "name", n |-> e.names[i]]).c THEN "coordinates-read-back"
+         \* coordinates of different dtypes (integer or float32 first, then float64 with a fractional part): no cell loses its value
+         ELSE IF Has(e, "mixed") /\ e.mixed.exc # "" THEN "from-coordinates-failed(mixed dtypes)"
+         ELSE IF Has(e, "mixed") /\ LET x == FromCoords(t, e.names)  d1 == x.sp[1][2] IN
+                     \/ e.mixed.c # x.c
+                     \/ \E r \in DOMAIN e.mixed.frac : \E j \in DOMAIN e.mixed.frac[r] : e.mixed.frac[r][j] # (IF j <= d1 THEN 0 ELSE 1)
+              THEN "from-coordinates-loses-cell-values(mixed dtypes)"
          ELSE "ok"
     [] e.a = "get" ->
          IF ~GetValid(t, e.op.sels, e.op.cs) THEN "ok"          \* outside the index universe: unconstrained
